@@ -33,6 +33,17 @@ type c09Article struct {
 	Title string
 }
 
+// unexported fields whose names begin outside ASCII (their first byte is not a lower-case ASCII letter)
+type c09Odd struct {
+	Name  string
+	édad  int
+	ñame  *c09Inner
+	ωidth float64
+	я     []int
+	_u    map[string]any
+	Ünit  string
+}
+
 type c09Post struct {
 	c09Audit
 	*c09Inner
@@ -96,6 +107,8 @@ func hostileData() map[string]any {
 		"art2": &c09Article{c09Audit: &c09Audit{By: "me", Rev: 2}, Title: "embedded pointer is set"},
 		"post": c09Post{Title: "embedded value and nil pointer"},
 		"arts": []c09Article{{Title: "a"}, {c09Audit: &c09Audit{}, Title: "b"}},
+		"odd":  c09Odd{Name: "visitor", édad: 41, Ünit: "u"},
+		"odds": []*c09Odd{{Name: "a", я: []int{1}}, nil},
 	}
 }
 
@@ -107,7 +120,7 @@ func manyInts(n int) []int {
 	return out
 }
 
-var hostileNames = []string{"i", "z", "neg", "big", "low", "u", "f", "fz", "fneg", "nan", "inf", "ninf", "tiny", "huge", "bad1", "bad2", "bad3", "bad4", "bad5", "s", "es", "num", "t", "no", "n", "arr", "ea", "na", "mix", "aa", "obj", "nm", "row", "rowp", "nilp", "rows", "art", "art2", "post", "arts", "nope"}
+var hostileNames = []string{"i", "z", "neg", "big", "low", "u", "f", "fz", "fneg", "nan", "inf", "ninf", "tiny", "huge", "bad1", "bad2", "bad3", "bad4", "bad5", "s", "es", "num", "t", "no", "n", "arr", "ea", "na", "mix", "aa", "obj", "nm", "row", "rowp", "nilp", "rows", "art", "art2", "post", "arts", "odd", "odds", "nope"}
 
 var allBuiltinNames = func() []string {
 	seen := map[string]bool{}
